@@ -125,3 +125,377 @@ Section MemoryConc.
       exists (i :: sched). simpl. rewrite Es. exact Er.
   Qed.
 End MemoryConc.
+
+(* ------------------------------------------------------------------ the explorers are complete *)
+(* Every schedule that runs to a state in which no thread can move ends in a state the
+   explorer lists (given fuel for its length): the outcome sets the implementation is
+   compared with are exactly the terminal states of the three transition systems (for the
+   OCI system: of schedules whose Write steps are unsplit, chunk = big). *)
+Section ExploreComplete.
+  Variable H : str -> str -> str.
+  Local Open Scope nat_scope.
+
+  Lemma in_seq_lt i n : i < n -> In i (seq 0 n).
+  Proof. intro L. apply in_seq. split; [apply Nat.le_0_l|exact L]. Qed.
+
+  Lemma nth_error_lt {A} (l : list A) i x : nth_error l i = Some x -> i < length l.
+  Proof. intro E. apply nth_error_Some. congruence. Qed.
+
+  (* OCI *)
+  Definition cterminal big (st : cstate) : Prop := forall i, cstep H st i big = None.
+
+  Lemma cstep_index st i big st' : cstep H st i big = Some st' -> i < length (c_thr st).
+  Proof.
+    unfold cstep. destruct (nth_error (c_thr st) i) eqn:E; [|discriminate]. intros _. eapply nth_error_lt; eauto.
+  Qed.
+
+  Lemma explore_complete big sched : forall fuel st st',
+    crun H st (map (fun i => (i, big)) sched) = Some st' -> cterminal big st' ->
+    length sched < fuel -> In st' (explore H fuel big st).
+  Proof.
+    induction sched as [|i r IH]; intros fuel st st' E T L; (destruct fuel as [|f]; [simpl in L; exfalso; apply (Nat.nlt_0_r _ L)|]); simpl in *.
+    - inversion E; subst.
+      assert (N : flat_map (fun i => match cstep H st' i big with Some s => [s] | None => [] end) (seq 0 (length (c_thr st'))) = []).
+      { induction (seq 0 (length (c_thr st'))) as [|a l IHl]; simpl; auto. rewrite (T a). exact IHl. }
+      rewrite N. left; reflexivity.
+    - destruct (cstep H st i big) as [st1|] eqn:Es; [|discriminate].
+      set (nexts := flat_map (fun i => match cstep H st i big with Some s => [s] | None => [] end) (seq 0 (length (c_thr st)))).
+      assert (I1 : In st1 nexts).
+      { apply in_flat_map. exists i. split; [apply in_seq_lt; eapply cstep_index; eauto|]. rewrite Es. left; reflexivity. }
+      destruct nexts as [|n0 nr] eqn:En; [destruct I1|].
+      apply in_flat_map. exists st1. split; [exact I1|]. apply IH; auto. apply Nat.succ_lt_mono. exact L.
+  Qed.
+
+  (* cas.Memory *)
+  Definition mterminal (st : mstate) : Prop := forall i, mstep H st i = None.
+
+  Lemma mstep_index st i st' : mstep H st i = Some st' -> i < length (ms_thr st).
+  Proof.
+    unfold mstep. destruct (nth_error (ms_thr st) i) eqn:E; [|discriminate]. intros _. eapply nth_error_lt; eauto.
+  Qed.
+
+  Lemma explore_m_complete sched : forall fuel st st',
+    mrun H st sched = Some st' -> mterminal st' -> length sched < fuel -> In st' (explore_m H fuel st).
+  Proof.
+    induction sched as [|i r IH]; intros fuel st st' E T L; (destruct fuel as [|f]; [simpl in L; exfalso; apply (Nat.nlt_0_r _ L)|]); simpl in *.
+    - inversion E; subst.
+      assert (N : flat_map (fun i => match mstep H st' i with Some s => [s] | None => [] end) (seq 0 (length (ms_thr st'))) = []).
+      { induction (seq 0 (length (ms_thr st'))) as [|a l IHl]; simpl; auto. rewrite (T a). exact IHl. }
+      rewrite N. left; reflexivity.
+    - destruct (mstep H st i) as [st1|] eqn:Es; [|discriminate].
+      set (nexts := flat_map (fun i => match mstep H st i with Some s => [s] | None => [] end) (seq 0 (length (ms_thr st)))).
+      assert (I1 : In st1 nexts).
+      { apply in_flat_map. exists i. split; [apply in_seq_lt; eapply mstep_index; eauto|]. rewrite Es. left; reflexivity. }
+      destruct nexts as [|n0 nr] eqn:En; [destruct I1|].
+      apply in_flat_map. exists st1. split; [exact I1|]. apply IH; auto. apply Nat.succ_lt_mono. exact L.
+  Qed.
+
+  (* file.Store *)
+  Definition fterminal (st : fcstate) : Prop := forall i, fstep H st i = None.
+
+  Lemma fstep_index st i st' : fstep H st i = Some st' -> i < length (fc_thr st).
+  Proof.
+    unfold fstep. destruct (nth_error (fc_thr st) i) eqn:E; [|discriminate]. intros _. eapply nth_error_lt; eauto.
+  Qed.
+
+  Lemma explore_f_complete sched : forall fuel st st',
+    frun H st sched = Some st' -> fterminal st' -> length sched < fuel -> In st' (explore_f H fuel st).
+  Proof.
+    induction sched as [|i r IH]; intros fuel st st' E T L; (destruct fuel as [|f]; [simpl in L; exfalso; apply (Nat.nlt_0_r _ L)|]); simpl in *.
+    - inversion E; subst.
+      assert (N : flat_map (fun i => match fstep H st' i with Some s => [s] | None => [] end) (seq 0 (length (fc_thr st'))) = []).
+      { induction (seq 0 (length (fc_thr st'))) as [|a l IHl]; simpl; auto. rewrite (T a). exact IHl. }
+      rewrite N. left; reflexivity.
+    - destruct (fstep H st i) as [st1|] eqn:Es; [|discriminate].
+      set (nexts := flat_map (fun i => match fstep H st i with Some s => [s] | None => [] end) (seq 0 (length (fc_thr st)))).
+      assert (I1 : In st1 nexts).
+      { apply in_flat_map. exists i. split; [apply in_seq_lt; eapply fstep_index; eauto|]. rewrite Es. left; reflexivity. }
+      destruct nexts as [|n0 nr] eqn:En; [destruct I1|].
+      apply in_flat_map. exists st1. split; [exact I1|]. apply IH; auto. apply Nat.succ_lt_mono. exact L.
+  Qed.
+
+  (* a finished OCI race leaves nothing under ingest/ *)
+  Lemma ingest_empty_when_done st :
+    Forall (fun t => exists r, t_pc t = PDone r) (c_thr st) -> ingest_files st = [].
+  Proof.
+    unfold ingest_files. induction 1 as [|t l [r E] F IH]; simpl; auto. rewrite E. exact IH.
+  Qed.
+End ExploreComplete.
+
+
+Lemma nth_error_set_nth_eq' {A} (l : list A) i x t :
+  nth_error l i = Some t -> nth_error (set_nth l i x) i = Some x.
+Proof. revert i. induction l as [|y l IH]; intros [|i]; simpl; try discriminate; auto. Qed.
+
+Lemma set_nth_twice {A} (l : list A) i x y : set_nth (set_nth l i x) i y = set_nth l i y.
+Proof. revert i. induction l as [|z l IH]; intros [|i]; simpl; auto. rewrite IH. reflexivity. Qed.
+
+(* ------------------------------------------------------------------ splitting the Writes changes nothing *)
+(* Any schedule of the OCI system, with Writes split in any way, that runs from a state in
+   which no push has started to a state in which every push is done, ends in a state that
+   a schedule with unsplit Writes also reaches -- hence (explore_complete) in a state the
+   explorer lists.  The Writes of a thread only grow its own ingest file. *)
+Section SplitWrites.
+  Variable H : str -> str -> str.
+  Variable big : nat.
+  Local Open Scope nat_scope.
+
+  Definition collapse_t (t : thr) : thr :=
+    match t_pc t with
+    | PIngest w todo e => with_pc t (PIngest (w ++ todo) [] e)
+    | _ => t
+    end.
+  Definition collapse (st : cstate) : cstate := mkC (c_blobs st) (map collapse_t (c_thr st)).
+
+  (* [big] is large enough for everything a thread will write *)
+  Definition fits (t : thr) : Prop :=
+    match t_pc t with
+    | PIngest w todo e => length (w ++ todo) <= S big
+    | PStart => forall e out v,
+        copy_buffer H (t_comb t) true (t_fuel t) (mkBase (t_evs t) None) oci_bufsz (d_dg (t_d t)) (d_sz (t_d t))
+        = ((e, out), v) -> length out <= S big
+    | PDone _ => True
+    end.
+
+  Lemma map_set_nth {A B} (f : A -> B) l i x : map f (set_nth l i x) = set_nth (map f l) i (f x).
+  Proof. revert i. induction l as [|y l IH]; intros [|i]; simpl; auto. rewrite IH. reflexivity. Qed.
+
+  Lemma set_nth_same {A} (l : list A) i x : nth_error l i = Some x -> set_nth l i x = l.
+  Proof. revert i. induction l as [|y l IH]; intros [|i]; simpl; try discriminate; intro E.
+    - inversion E; reflexivity.
+    - rewrite IH; auto. Qed.
+
+  Lemma collapse_t_fields t : t_d (collapse_t t) = t_d t /\ t_evs (collapse_t t) = t_evs t /\
+                              t_comb (collapse_t t) = t_comb t /\ t_fuel (collapse_t t) = t_fuel t.
+  Proof. unfold collapse_t. destruct (t_pc t); auto. Qed.
+
+  Lemma with_pc_collapse t p : with_pc (collapse_t t) p = with_pc t p.
+  Proof. unfold collapse_t. destruct (t_pc t); reflexivity. Qed.
+
+  Lemma cstep_sim st i n st1 :
+    Forall fits (c_thr st) -> cstep H st i n = Some st1 ->
+    Forall fits (c_thr st1) /\
+    exists sch, Forall (fun s => snd s = big) sch /\ crun H (collapse st) sch = Some (collapse st1).
+  Proof.
+    intros Ff. unfold cstep. destruct (nth_error (c_thr st) i) as [t|] eqn:Ei; [|discriminate].
+    pose proof (Forall_nth_error _ _ _ _ Ff Ei) as Ft. unfold fits in Ft.
+    assert (Ec : nth_error (c_thr (collapse st)) i = Some (collapse_t t)).
+    { simpl. rewrite nth_error_map, Ei. reflexivity. }
+    destruct (collapse_t_fields t) as (Cd & Ce & Cc & Cf).
+    destruct (t_pc t) as [|w todo e|r] eqn:Epc; [| |discriminate].
+    - (* a push starts *)
+      assert (Cp : t_pc (collapse_t t) = PStart) by (unfold collapse_t; rewrite Epc; exact Epc).
+      assert (One : forall p, (p = PDone (Some EBadDigest) \/ p = PDone (Some EExists)) ->
+                cstep H (collapse st) i big = Some (mkC (c_blobs st) (set_nth (map collapse_t (c_thr st)) i (with_pc t p))) ->
+                Forall fits (set_nth (c_thr st) i (with_pc t p)) /\
+                exists sch, Forall (fun s => snd s = big) sch /\
+                  crun H (collapse st) sch = Some (collapse (mkC (c_blobs st) (set_nth (c_thr st) i (with_pc t p))))).
+      { intros p Hp Es. split.
+        - apply Forall_set_nth; auto. unfold fits. destruct Hp as [-> | ->]; exact I.
+        - exists [(i, big)]. split; [repeat constructor|]. simpl. rewrite Es. unfold collapse. simpl.
+          rewrite map_set_nth. f_equal. f_equal. f_equal. unfold collapse_t. destruct Hp as [-> | ->]; reflexivity. }
+      destruct (negb (valid_digest (d_dg (t_d t)))) eqn:Vd.
+      { intro E; inversion E; subst. apply One; auto.
+        unfold cstep. rewrite Ec, Cp, Cd, Vd. simpl. rewrite with_pc_collapse. reflexivity. }
+      destruct (oci_get (c_blobs st) (d_dg (t_d t))) eqn:Gb.
+      { intro E; inversion E; subst. apply One; auto.
+        unfold cstep. rewrite Ec, Cp, Cd, Vd. simpl. rewrite Gb, with_pc_collapse. reflexivity. }
+      destruct (copy_buffer H (t_comb t) true (t_fuel t) (mkBase (t_evs t) None) oci_bufsz (d_dg (t_d t)) (d_sz (t_d t)))
+        as [[e out] v] eqn:Ecb.
+      intro E; inversion E; subst; clear E. specialize (Ft _ _ _ eq_refl).
+      split.
+      { apply Forall_set_nth; auto; unfold fits; simpl; exact Ft. }
+      (* first the start step on the collapsed state *)
+      set (S1 := mkC (c_blobs st) (set_nth (map collapse_t (c_thr st)) i (with_pc t (PIngest [] out e)))).
+      assert (E1 : cstep H (collapse st) i big = Some S1).
+      { unfold cstep. rewrite Ec, Cp, Cd, Vd. simpl. rewrite Gb, Cc, Cf, Ce, Ecb, with_pc_collapse. reflexivity. }
+      assert (Tgt : collapse (mkC (c_blobs st) (set_nth (c_thr st) i (with_pc t (PIngest [] out e))))
+                    = mkC (c_blobs st) (set_nth (map collapse_t (c_thr st)) i (with_pc t (PIngest out [] e)))).
+      { unfold collapse. simpl. rewrite map_set_nth. reflexivity. }
+      rewrite Tgt. destruct out as [|c out'].
+      + exists [(i, big)]. split; [repeat constructor|]. simpl. rewrite E1. reflexivity.
+      + exists [(i, big); (i, big)]. split; [repeat constructor|]. simpl. rewrite E1.
+        unfold cstep, S1. cbn [c_thr c_blobs].
+        rewrite (nth_error_set_nth_eq' _ _ _ _ Ec). cbn [t_pc with_pc].
+        assert (K : S (Nat.min big (length (c :: out') - 1)) = length (c :: out')).
+        { simpl in Ft. simpl. lia. }
+        rewrite K, firstn_all, skipn_all. cbn [app].
+        f_equal. f_equal. rewrite set_nth_twice. reflexivity.
+    - (* a Write or the final step *)
+      destruct todo as [|c todo'].
+      + (* final step: identical on the collapsed state *)
+        assert (Cp : collapse_t t = t).
+        { unfold collapse_t. rewrite Epc, app_nil_r. destruct t; simpl in *; subst; reflexivity. }
+        destruct e as [er|]; intro E; inversion E; subst; clear E;
+          (split; [apply Forall_set_nth; auto; exact I|]);
+          exists [(i, big)]; (split; [repeat constructor|]); simpl;
+          unfold cstep; rewrite Ec, Cp, Epc; unfold collapse; simpl; rewrite map_set_nth; reflexivity.
+      + (* a Write: invisible after collapsing *)
+        intro E; inversion E; subst; clear E. split.
+        * apply Forall_set_nth; [exact Ff|]. unfold fits. cbn [t_pc with_pc].
+          repeat (rewrite ?app_length, ?firstn_length, ?skipn_length in *; cbn [length] in *). lia.
+        * exists []. split; [constructor|]. simpl. f_equal. unfold collapse. simpl. f_equal.
+          rewrite map_set_nth.
+          match goal with |- _ = set_nth _ _ ?X => replace X with (collapse_t t) end.
+          -- symmetry. apply set_nth_same. rewrite nth_error_map, Ei. reflexivity.
+          -- unfold collapse_t. simpl. rewrite Epc. unfold with_pc. simpl. rewrite <- app_assoc. simpl.
+             rewrite firstn_skipn. reflexivity.
+  Qed.
+
+  Lemma crun_sim sched : forall st st',
+    Forall fits (c_thr st) -> crun H st sched = Some st' ->
+    Forall fits (c_thr st') /\
+    exists sch, Forall (fun s => snd s = big) sch /\ crun H (collapse st) sch = Some (collapse st').
+  Proof.
+    induction sched as [|[i n] r IH]; intros st st' Ff; simpl.
+    - intro E; inversion E; subst. split; auto. exists []. split; [constructor|reflexivity].
+    - destruct (cstep H st i n) as [st1|] eqn:Es; [|discriminate]. intro E.
+      destruct (cstep_sim st i n st1 Ff Es) as (F1 & sch1 & B1 & R1).
+      destruct (IH st1 st' F1 E) as (F2 & sch2 & B2 & R2).
+      split; auto. exists (sch1 ++ sch2). split; [apply Forall_app; auto|].
+      rewrite (crun_app H _ sch1 sch2 _ R1). exact R2.
+  Qed.
+
+  Lemma collapse_started st : Forall (fun t => t_pc t = PStart) (c_thr st) -> collapse st = st.
+  Proof.
+    destruct st as [bl thr]. unfold collapse. simpl. intro F. f_equal.
+    induction F as [|t l E F IH]; simpl; auto. rewrite IH. unfold collapse_t. rewrite E. reflexivity.
+  Qed.
+
+  Lemma collapse_done st : Forall (fun t => exists r, t_pc t = PDone r) (c_thr st) -> collapse st = st.
+  Proof.
+    destruct st as [bl thr]. unfold collapse. simpl. intro F. f_equal.
+    induction F as [|t l [r E] F IH]; simpl; auto. rewrite IH. unfold collapse_t. rewrite E. reflexivity.
+  Qed.
+
+  Lemma done_terminal st : Forall (fun t => exists r, t_pc t = PDone r) (c_thr st) -> forall i, cstep H st i big = None.
+  Proof.
+    intros F i. unfold cstep. destruct (nth_error (c_thr st) i) as [t|] eqn:Ei; auto.
+    destruct (Forall_nth_error _ _ _ _ F Ei) as [r E]. rewrite E. reflexivity.
+  Qed.
+
+  Lemma big_schedule sch : Forall (fun s : nat * nat => snd s = big) sch -> sch = map (fun i => (i, big)) (map fst sch).
+  Proof. induction 1 as [|[i n] l E F IH]; simpl; auto. simpl in E. subst n. rewrite <- IH. reflexivity. Qed.
+
+  (* every finished race, however its Writes were split, is one of the explored outcomes *)
+  Theorem split_writes_explored st0 sched st' :
+    Forall (fun t => t_pc t = PStart) (c_thr st0) -> Forall fits (c_thr st0) ->
+    crun H st0 sched = Some st' -> Forall (fun t => exists r, t_pc t = PDone r) (c_thr st') ->
+    exists is, crun H st0 (map (fun i => (i, big)) is) = Some st' /\
+               forall fuel, length is < fuel -> In st' (explore H fuel big st0).
+  Proof.
+    intros Fs Ff E Fd. destruct (crun_sim sched st0 st' Ff E) as (_ & sch & B & R).
+    rewrite (collapse_started st0 Fs), (collapse_done st' Fd) in R.
+    exists (map fst sch). rewrite <- (big_schedule sch B). split; [exact R|].
+    intros fuel L. apply (explore_complete H big (map fst sch)); auto.
+    - rewrite <- (big_schedule sch B). exact R.
+    - unfold cterminal. apply done_terminal. exact Fd.
+  Qed.
+
+  (* what CopyBuffer writes never exceeds what the reader holds, so big = the total number
+     of bytes of the scripts (what the driver uses) fits every thread *)
+  Lemma vr_read_conserve comb v k bs e v' :
+    vr_read comb v k = ((bs, e), v') ->
+    stream (b_evs (v_base v)) = bs ++ stream (b_evs (v_base v')).
+  Proof.
+    unfold vr_read. destruct (v_err v).
+    - intro E; inversion E; subst. reflexivity.
+    - destruct (v_N v <=? 0)%Z.
+      + intro E; inversion E; subst. reflexivity.
+      + destruct (base_read comb (v_base v) (clamp k (v_N v))) as [[bs0 e0] b1] eqn:Eb.
+        apply base_read_spec in Eb as (A & _).
+        destruct e0; intro E; inversion E; subst; simpl; exact A.
+  Qed.
+
+  Lemma copy_loop_conserve comb bufsz fuel : forall v out e out' v',
+    copy_loop comb fuel v bufsz out = ((e, out'), v') ->
+    length out' + length (stream (b_evs (v_base v'))) = length out + length (stream (b_evs (v_base v))).
+  Proof.
+    induction fuel as [|f IH]; intros v out e out' v'; simpl.
+    - intro E; inversion E; subst. reflexivity.
+    - destruct (vr_read comb v bufsz) as [[bs e0] v1] eqn:Er.
+      apply vr_read_conserve in Er. rewrite Er, app_length.
+      destruct e0 as [e0|].
+      + destruct e0; intro E; inversion E; subst; rewrite app_length; lia.
+      + intro E. apply IH in E. rewrite app_length in E. lia.
+  Qed.
+
+  Lemma fits_started t :
+    t_pc t = PStart -> length (stream (t_evs t)) <= S big -> fits t.
+  Proof.
+    intros Ep L. unfold fits. rewrite Ep. intros e out v. unfold copy_buffer.
+    destruct (copy_loop (t_comb t) (t_fuel t) (new_vr true (mkBase (t_evs t) None) (d_dg (t_d t)) (d_sz (t_d t))) oci_bufsz [])
+      as [[e0 o] v0] eqn:Ec.
+    apply copy_loop_conserve in Ec. unfold new_vr in Ec. rewrite new_vr_lim in Ec. simpl in Ec.
+    destruct e0 as [e0|].
+    - intro E; inversion E; subst. lia.
+    - destruct (vr_verify H (t_comb t) (t_fuel t) (d_dg (t_d t)) v0) as [r v1]. intro E; inversion E; subst. lia.
+  Qed.
+
+  (* ---- an unsplit schedule takes at most three steps per thread, so the explorer's fuel
+     4 * threads + 2 (what the correspondence uses) is enough *)
+  Definition rank (t : thr) : nat :=
+    match t_pc t with
+    | PStart => 3
+    | PIngest _ (_ :: _) _ => 2
+    | PIngest _ [] _ => 1
+    | PDone _ => 0
+    end.
+
+  Fixpoint total_rank (l : list thr) : nat :=
+    match l with [] => 0 | t :: r => rank t + total_rank r end.
+
+  Lemma total_rank_set_nth l i t x :
+    nth_error l i = Some t -> total_rank (set_nth l i x) + rank t = total_rank l + rank x.
+  Proof.
+    revert i. induction l as [|y l IH]; intros [|i]; simpl; try discriminate; intro E.
+    - inversion E; subst. lia.
+    - specialize (IH i E). lia.
+  Qed.
+
+  Lemma total_rank_le l : total_rank l <= 3 * length l.
+  Proof. induction l as [|t r IH]; simpl; [lia|]. unfold rank. destruct (t_pc t) as [|w [|c todo] e|r0]; lia. Qed.
+
+  Lemma cstep_rank st i st' :
+    Forall fits (c_thr st) -> cstep H st i big = Some st' ->
+    Forall fits (c_thr st') /\ total_rank (c_thr st') < total_rank (c_thr st).
+  Proof.
+    intros Ff Es. split; [exact (proj1 (cstep_sim st i big st' Ff Es))|].
+    unfold cstep in Es. destruct (nth_error (c_thr st) i) as [t|] eqn:Ei; [|discriminate].
+    pose proof (Forall_nth_error _ _ _ _ Ff Ei) as Ft. unfold fits in Ft.
+    assert (R : forall p, rank (with_pc t p) < rank t ->
+                total_rank (set_nth (c_thr st) i (with_pc t p)) < total_rank (c_thr st)).
+    { intros p L. pose proof (total_rank_set_nth _ _ _ (with_pc t p) Ei). lia. }
+    unfold rank in R at 2.
+    destruct (t_pc t) as [|w todo e|r] eqn:Epc; [| |discriminate].
+    - destruct (negb (valid_digest (d_dg (t_d t)))); [inversion Es; subst; apply R; unfold rank; simpl; lia|].
+      destruct (oci_get (c_blobs st) (d_dg (t_d t))); [inversion Es; subst; apply R; unfold rank; simpl; lia|].
+      destruct (copy_buffer H (t_comb t) true (t_fuel t) (mkBase (t_evs t) None) oci_bufsz (d_dg (t_d t)) (d_sz (t_d t)))
+        as [[e out] v]. inversion Es; subst. apply R. unfold rank; simpl. destruct out; lia.
+    - destruct todo as [|c todo'].
+      + destruct e; inversion Es; subst; apply R; unfold rank; simpl; lia.
+      + inversion Es; subst. apply R. unfold rank. cbn [t_pc with_pc].
+        assert (K : Nat.min big (length todo' - 0) = length todo').
+        { rewrite app_length in Ft. simpl in *. lia. }
+        rewrite K, skipn_all. lia.
+  Qed.
+
+  Lemma crun_big_length is : forall st st',
+    Forall fits (c_thr st) -> crun H st (map (fun i => (i, big)) is) = Some st' ->
+    length is + total_rank (c_thr st') <= total_rank (c_thr st).
+  Proof.
+    induction is as [|i r IH]; intros st st' Ff; simpl.
+    - intro E; inversion E; subst. lia.
+    - destruct (cstep H st i big) as [st1|] eqn:Es; [|discriminate]. intro E.
+      destruct (cstep_rank st i st1 Ff Es) as [F1 L]. specialize (IH st1 st' F1 E). lia.
+  Qed.
+
+  Theorem split_writes_explored_fuel st0 sched st' :
+    Forall (fun t => t_pc t = PStart) (c_thr st0) -> Forall fits (c_thr st0) ->
+    crun H st0 sched = Some st' -> Forall (fun t => exists r, t_pc t = PDone r) (c_thr st') ->
+    In st' (explore H (4 * length (c_thr st0) + 2) big st0).
+  Proof.
+    intros Fs Ff E Fd. destruct (split_writes_explored st0 sched st' Fs Ff E Fd) as (is & R & X).
+    apply X. pose proof (crun_big_length is st0 st' Ff R). pose proof (total_rank_le (c_thr st0)). lia.
+  Qed.
+End SplitWrites.
